@@ -98,7 +98,8 @@ def run(ctx):
             for i, line in enumerate(c.impl):
                 op = c.ops[i] if i < len(c.ops) else ""
                 why = impl_violation(op, line)
-                if why and not (i < len(c.flags) and c.flags[i]):
+                agreed = i < len(c.flags) and c.flags[i] and i not in c.mismatch      # then decide_standard reports it under the model's id
+                if why and not agreed:
                     fid = "C23-impl-" + re.sub(r"\W+", "-", why.split("(")[0].strip())[:50]
                     if fid not in extra:
                         cs = K.case_of(c, i)
